@@ -3,6 +3,7 @@ import ScyllaVerif.Model.FrameStream
 import ScyllaVerif.Drive.C02
 import ScyllaVerif.Model.Pool
 import ScyllaVerif.Model.PoolReconnect
+import ScyllaVerif.Model.PoolKeyspace
 /-! Line-protocol driver for C10.
 
 * `frames <hex>`            — `read_response_frame` in a loop over an in-memory reader holding exactly these bytes;
@@ -190,6 +191,26 @@ def runPoolr (cfg : String) : String :=
     s!"down={p0.shared.length},c={p1.shared.length},q={ok}/5"
   | _ => "bad-case"
 
+/-- `poolk <k>`: the pool is full; the node starts holding `USE`; a connection dies (the refiller opens the
+replacements: they are accepted, their `USE` is held); 1.5 s of refiller turns; another death; turns; `trigger_refill`;
+turns. Per phase: published connections, connections accepted by the node in the phase, held `USE`s so far.
+`start_filling` opens `target - active` connections at once: all of them are held. -/
+def runPoolk (cfg : String) (impl : String) : String :=
+  if impl.startsWith "e2e-skip" then impl else
+  match cfg.toNat? with
+  | none => "bad-case"
+  | some k =>
+    if k < 2 || k > 6 then "bad-case" else
+    let p0 : ScyllaVerif.PoolKeyspace.KPool := ⟨k, 0, k⟩
+    let phase (p : ScyllaVerif.PoolKeyspace.KPool) (evs : List ScyllaVerif.PoolKeyspace.KEv) :
+        ScyllaVerif.PoolKeyspace.KPool × String :=
+      let p' := ScyllaVerif.PoolKeyspace.run p evs
+      (p', s!"c={p'.conns},acc={p'.setting - p.setting},held={p'.setting}")
+    let (p1, s1) := phase p0 [.die, .fill, .fill, .fill]
+    let (p2, s2) := phase p1 [.die, .fill, .fill, .fill]
+    let (_, s3) := phase p2 [.fill, .fill]
+    s!"{s1} | {s2} | {s3} | probes=answered"
+
 def run (case impl : String) : String :=
   match words case with
   | ["frames", hex] =>
@@ -226,6 +247,7 @@ def run (case impl : String) : String :=
   | ["rp", cfg, script] => runRp cfg script impl
   | ["rp", cfg] => runRp cfg "" impl
   | ["poolr", cfg] => runPoolr cfg
+  | ["poolk", cfg] => runPoolk cfg impl
   | ["race", cfg, seed] =>
     -- multi-thread race of submissions with a connection reset: not deterministic, judged by the oracle only
     -- ("every submitted request completes": `Props.C10.race_window_drains`); the model's line is the constant
